@@ -6118,6 +6118,12 @@ genOr(AbSyn absyn)
 {
 	int	i, l1 = gen0State->labelNo++, l2 = gen0State->labelNo++;
 	Foam	t;
+	FoamList topLines;
+	Bool	flag;
+
+	/* Imports first used in a later operand must not be
+	 * initialized only when that operand is evaluated. */
+	flag = gen0AddImportPlace(&topLines);
 
 	t = gen0Temp(FOAM_Bool);
 	gen0AddStmt(foamNewSet(foamCopy(t), foamNewBool(false)), absyn);
@@ -6127,6 +6133,8 @@ genOr(AbSyn absyn)
 	gen0AddStmt(foamNewLabel(l1), absyn);
 	gen0AddStmt(foamNewSet(foamCopy(t), foamNewBool(true)), absyn);
 	gen0AddStmt(foamNewLabel(l2), absyn);
+
+	if (flag) gen0ResetImportPlace(topLines);
 	return foamNewCast(FOAM_Word, t);
 }
 
@@ -6135,6 +6143,12 @@ genAnd(AbSyn absyn)
 {
 	int	i, l1 = gen0State->labelNo++, l2 = gen0State->labelNo++;
 	Foam	t;
+	FoamList topLines;
+	Bool	flag;
+
+	/* Imports first used in a later operand must not be
+	 * initialized only when that operand is evaluated. */
+	flag = gen0AddImportPlace(&topLines);
 
 	t = gen0Temp(FOAM_Bool);
 	gen0AddStmt(foamNewSet(foamCopy(t), foamNewBool(true)), absyn);
@@ -6146,6 +6160,8 @@ genAnd(AbSyn absyn)
 	gen0AddStmt(foamNewLabel(l1), absyn);
 	gen0AddStmt(foamNewSet(foamCopy(t), foamNewBool(false)), absyn);
 	gen0AddStmt(foamNewLabel(l2), absyn);
+
+	if (flag) gen0ResetImportPlace(topLines);
 	return foamNewCast(FOAM_Word, t);
 }
 
